@@ -316,7 +316,7 @@ def check(tier):
     # the published position must also be where a layout conversion WRITES each element (rule C05.b of relayout/c05)
     from . import c05
     c05.declare(rep)
-    for r in ("C05.a", "C05.cuda", "C05.c", "C05.d", "C05.e"):
+    for r in ("C05.f", "C05.a", "C05.cuda", "C05.c", "C05.d", "C05.e"):
         rep.rules.pop(r, None)
     c05.run_conversions(only(rep), "quick")
     rep.assumptions = ["coordinates non-negative and below 2^floor(64/N) (the property's domain)",
